@@ -227,6 +227,23 @@ func gcFive[K any](st *gcStats, ks gcKeys[K], t1 art.Tree[K, *gcT], t2 art.Tree[
 	gcRun(st, ks, "[25]uint64", gvBig, t5)
 }
 
+// value types whose size is not a multiple of 4: a leaf read through another leaf type with a
+// differently placed length field goes wrong exactly there (the range scan of signed and float
+// trees reads leaves through the unsigned leaf type)
+var (
+	gvBool  = func(k string, g int) bool { return (len(k)+g)%2 == 0 }
+	gvOdd3  = func(k string, g int) [3]byte { return [3]byte{byte(len(k)), byte(g), 0x5a} }
+	gvOdd5  = func(k string, g int) [5]byte { return [5]byte{byte(len(k)), byte(g), 0xa5, byte(len(k) * 7), 1} }
+	gvInt16 = func(k string, g int) int16 { return int16(len(k)*100 + g) }
+)
+
+func gcOdd[K any](st *gcStats, ks gcKeys[K], t1 art.Tree[K, bool], t2 art.Tree[K, [3]byte], t3 art.Tree[K, [5]byte], t4 art.Tree[K, int16]) {
+	gcRun(st, ks, "bool", gvBool, t1)
+	gcRun(st, ks, "[3]byte", gvOdd3, t2)
+	gcRun(st, ks, "[5]byte", gvOdd5, t3)
+	gcRun(st, ks, "int16", gvInt16, t4)
+}
+
 func gcMain(args []string) int {
 	seed, nkeys := uint64(1), 300
 	if len(args) > 0 {
@@ -280,6 +297,16 @@ func gcMain(args []string) int {
 		mk: func(i int) float64 { return math.Float64frombits(parseU(fp[i])) }, show: showF64},
 		art.NewFloatBinaryTree[float64, *gcT](), art.NewFloatBinaryTree[float64, string](), art.NewFloatBinaryTree[float64, []byte](),
 		art.NewFloatBinaryTree[float64, struct{}](), art.NewFloatBinaryTree[float64, [25]uint64]())
+
+	gcOdd(st, gcKeys[float64]{name: "float64", canon: fp, rng: true,
+		mk: func(i int) float64 { return math.Float64frombits(parseU(fp[i])) }, show: showF64},
+		art.NewFloatBinaryTree[float64, bool](), art.NewFloatBinaryTree[float64, [3]byte](), art.NewFloatBinaryTree[float64, [5]byte](), art.NewFloatBinaryTree[float64, int16]())
+	gcOdd(st, gcKeys[int16]{name: "int16", canon: sp, rng: true,
+		mk: func(i int) int16 { return int16(parseS(sp[i])) }, show: func(k int16) string { return showS(int64(k)) }},
+		art.NewSignedBinaryTree[int16, bool](), art.NewSignedBinaryTree[int16, [3]byte](), art.NewSignedBinaryTree[int16, [5]byte](), art.NewSignedBinaryTree[int16, int16]())
+	gcOdd(st, gcKeys[uint64]{name: "uint64", canon: up, rng: true,
+		mk: func(i int) uint64 { return parseU(up[i]) }, show: showU},
+		art.NewUnsignedBinaryTree[uint64, bool](), art.NewUnsignedBinaryTree[uint64, [3]byte](), art.NewUnsignedBinaryTree[uint64, [5]byte](), art.NewUnsignedBinaryTree[uint64, int16]())
 
 	// collation (string keys, German collator); Range is left unspecified for collation trees
 	_, cp := pool(kindSpec{"coll", "string:de"}, min(nkeys, 160))
